@@ -556,6 +556,89 @@ func checkC16(p *Prog, res *Result, tier string) {
 			checkFailureBranchKv(p, r, res, f, casFailed)
 		}
 	}
+	// .. and the re-read itself: the failed-condition answer carries no key-value ("there is no such key") only where the
+	// re-read said so - a read that failed for another reason is answered with the error (or with the earlier read)
+	{
+		bp := p.ssaPkg("pkg/backend")
+		notFound := p.global("pkg/storage", "ErrKeyNotFound")
+		isErrorsIs := func(c *ssa.Call, g *ssa.Global) bool {
+			sc := c.Common().StaticCallee()
+			if sc == nil || sc.Pkg == nil || sc.Name() != "Is" || len(c.Common().Args) != 2 {
+				return false
+			}
+			if pp := sc.Pkg.Pkg.Path(); pp != "errors" && pp != "github.com/pkg/errors" {
+				return false
+			}
+			ld, ok := resolve(c.Common().Args[1]).(*ssa.UnOp)
+			return ok && ld.Op == token.MUL && ld.X == ssa.Value(g)
+		}
+		classified := func(cf condFact, g *ssa.Global) bool {
+			if cf.Call != nil && cf.Want && isErrorsIs(cf.Call, g) {
+				return true
+			}
+			if cf.X != nil && ((cf.Op == token.EQL && cf.Want) || (cf.Op == token.NEQ && !cf.Want)) {
+				for _, v := range []ssa.Value{cf.X, cf.Y} {
+					if ld, ok := resolve(v).(*ssa.UnOp); ok && ld.Op == token.MUL && ld.X == ssa.Value(g) {
+						return true
+					}
+				}
+			}
+			return false
+		}
+		for _, m := range []*types.Func{r.BUpdate, r.BDelete} {
+			for _, f := range p.implsOf(m) {
+				if f.Pkg != bp || f.Blocks == nil {
+					continue
+				}
+				ei := errorResultIndex(f.Signature)
+				n := 0
+				for _, b := range f.Blocks {
+					iff := ifOf(b)
+					if iff == nil {
+						continue
+					}
+					isCas := false
+					for _, cf := range expandFact(factOf(iff.Cond, true), 0) {
+						if classified(cf, casFailed) {
+							isCas = true
+						}
+					}
+					if !isCas {
+						continue
+					}
+					n++
+					construct := fmt.Sprintf("%s: failed-condition answer without a key-value #%d", funcName(f), n)
+					hit, _ := searchFrom(b.Succs[0], 0, searchOpts{
+						stop: func(i ssa.Instruction) bool {
+							st, ok := i.(*ssa.Store)
+							if !ok {
+								return false
+							}
+							fa, ok := st.Addr.(*ssa.FieldAddr)
+							return ok && fieldOf(fa).Name() == "Kv" && !isNilConst(resolve(st.Val))
+						},
+						bad: func(i ssa.Instruction) bool {
+							ret, ok := i.(*ssa.Return)
+							if !ok || ei < 0 || ei >= len(ret.Results) || !isNilConst(resolve(ret.Results[ei])) {
+								return false
+							}
+							for _, cf := range dominatingFacts(ret.Block()) {
+								if classified(cf, notFound) {
+									return false
+								}
+							}
+							return true
+						},
+					})
+					if hit != nil {
+						res.bad("C16-R5", construct, p.pos(hit.Pos()), "the failed-condition branch answers without a key-value and without an error on a path where the re-read was not found to report 'no such key': a read that failed for any other reason tells the client that the key does not exist (etcd answers the failure branch with the current key-value, or fails the request)")
+					} else {
+						res.ok("C16-R5", construct, p.pos(iff.Pos()), "no key-value only where the re-read reported not-found")
+					}
+				}
+			}
+		}
+	}
 	// ---- R9: the revision a Range answer names is the one its data was read at (C06-R2, C02-R4) ----
 	for _, o := range p.subResult("C06", tier).Obls {
 		if o.Rule == "C06-R2" {
